@@ -130,7 +130,9 @@ def run(chk: Check):
             if name in ("GaussianProcessSampler", "CORSSampler") and sp.dims > 4 and chk.tier == "quick":
                 continue
             bs = rng.randint(1, 4)
-            smp = ch.make_builtin(name, bs, ch.SMALL_OPTS.get(name), rng.randrange(10 ** 6))
+            opts = ch.random_opts(name, rng) if rng.random() < 0.6 else ch.SMALL_OPTS.get(name)
+            chk.count("options:" + ("random" if opts is not ch.SMALL_OPTS.get(name) else "default"))
+            smp = ch.make_builtin(name, bs, opts, rng.randrange(10 ** 6))
             pts, losses = gen_history(rng, sp, rng.randint(max(bs, 4), 14), top=edge)
             ncalls = rng.randint(1, 5 if name not in ("GaussianProcessSampler", "CORSSampler") else 2)
             if edge and name == "BestBatchSampler":
